@@ -77,7 +77,14 @@ class ScriptedPlayer:
         self.overrides = overrides or {}   # (board_idx, 'call'|'card', index) -> raw line
         self.name = name or f'client:{seat}'
         self.on_verdict = on_verdict
-        self.vanish = vanish            # (board_idx, 'call'|'card', index): close the socket there
+        # vanish = (board_idx, 'call'|'card', index): close the socket there, when this seat is the
+        # one to act; vanish = (board_idx, phase, index, 'any'): close it when the session reaches
+        # that point, whoever is to act (phase may also be 'deal': before "ready for deal")
+        self.vanish_any = None
+        if vanish is not None and len(vanish) == 4:
+            self.vanish_any = tuple(vanish[:3])
+            vanish = None
+        self.vanish = vanish
         self.pre_connect = pre_connect
         self.post_connect = post_connect
         # observations
@@ -252,8 +259,15 @@ class ScriptedPlayer:
             self.offended = True
             raise _Stop()
 
+    def _maybe_leave(self, key):
+        if self.vanish_any is not None and self.vanish_any == key:
+            self.sock.close()
+            self.offended = True
+            raise _Stop()
+
     def _board(self, b):
         me = self.seat
+        self._maybe_leave((b, 'deal', 0))
         self.send(self._sp(f'{self._name()} ready for deal'))
         hdr = self._expect('HEADER')
         dealer = hdr[2]
@@ -265,6 +279,7 @@ class ScriptedPlayer:
         a = rb.Auction(dealer)
         while not a.done:
             i = len(a.calls)
+            self._maybe_leave((b, 'call', i))
             if a.turn == me:
                 self._maybe_vanish((b, 'call', i))
                 raw = self.overrides.get((b, 'call', i))
@@ -299,6 +314,7 @@ class ScriptedPlayer:
         n = 0
         while not p.done:
             turn = p.turn
+            self._maybe_leave((b, 'card', n))
             i_act = (turn == me and me != dummy) or (turn == dummy and me == declarer)
             if i_act and not p.trick:
                 tok = self._expect('LEAD')
